@@ -10,7 +10,7 @@ STYLES = ['canon', 'lf', 'nospace', 'xspace', 'lower', 'upper', 'fold', 'dup',
           'empty', 'obstext', 'junkline', 'biglf']
 FRAMINGS = ['cl', 'cl0', 'chunked1', 'chunked_ext', 'chunked_lf', 'close',
             'overrun', 'n204', 'n304', 'n304cl', 'headcl', 'headte', 'te_cl',
-            'http10', 'connclose', 'badcl', 'n404', 'n205chunked', 'n205cl']
+            'http10', 'connclose', 'badcl', 'n404', 'n205chunked', 'n205cl', 'overrun_resp']
 BODIES = ['text', 'empty', 'binary', 'gzip', 'deflate', 'rawdeflate', 'mime']
 
 BODY_BYTES = {
@@ -128,6 +128,10 @@ def make(style, framing, body):
     elif framing == 'overrun':
         fields.append(('Content-Length', str(len(wire))))
         surplus = b'XYZ'
+    elif framing == 'overrun_resp':
+        # the surplus is itself a complete (forged) response
+        fields.append(('Content-Length', str(len(wire))))
+        surplus = b'HTTP/1.1 200 OK\r\nContent-Length: 6\r\n\r\nforged'
     elif framing == 'n204':
         status, reason = 204, 'No Content'
         fields = [('Server', 'x')]
@@ -185,4 +189,4 @@ def make(style, framing, body):
 
 def reusable(framing):
     """May another exchange follow on the same connection?"""
-    return framing not in ('close', 'http10', 'connclose', 'overrun', 'badcl')
+    return framing not in ('close', 'http10', 'connclose', 'overrun', 'overrun_resp', 'badcl')
